@@ -2671,3 +2671,883 @@ theorem ofList_loc : ∀ ps : List RPat, (∀ p ∈ ps, p.Loc) → (RPats.ofList
 
 
 end Harper.Leaves
+
+namespace Harper.Leaves
+open Harper Harper.Chunks Harper.Rules
+
+/-! ## never out of fuel: no hypothesis on the source, the tokens or the tree -/
+
+/-- the matcher never reports a hang (`Panic.outOfFuel`), on any source and any tokens -/
+def NF (m : Matcher) : Prop := ∀ src ts, m src ts ≠ .error .outOfFuel
+
+section noFuel
+
+theorem getContent_nf {α} (s : Span) (src : List α) : s.getContent src ≠ .error .outOfFuel := by
+  unfold Span.getContent
+  intro h
+  split at h
+  · cases h
+  · split at h
+    · split at h <;> cases h
+    · cases h
+
+theorem sliceE_nf {α} (l : List α) (a b : Nat) : sliceE l a b ≠ .error .outOfFuel := by
+  unfold sliceE
+  intro h
+  split at h <;> cases h
+
+theorem arithAdd_nf (m : Arith) (a b : Nat) : m.add a b ≠ .error .outOfFuel := by
+  intro h
+  cases m <;> simp only [Arith.add] at h
+  · cases h
+  · split at h <;> cases h
+  · cases h
+
+theorem nextRowAux_nf {α} [DecidableEq α] (m : Arith) (b : α) :
+    ∀ (s : List α) (left diag : Nat) (ps : List Nat), nextRowAux m b left diag s ps ≠ .error .outOfFuel := by
+  intro s
+  induction s with
+  | nil => intro left diag ps h; simp only [nextRowAux] at h; cases h
+  | cons a s ih =>
+    intro left diag ps h
+    cases ps with
+    | nil => simp only [nextRowAux] at h; cases h
+    | cons p ps =>
+      simp only [nextRowAux] at h
+      cases hx : m.add p 1 with
+      | error e => rw [hx] at h; simp only [] at h; cases h; exact arithAdd_nf _ _ _ hx
+      | ok x =>
+        rw [hx] at h
+        simp only [] at h
+        cases hy : m.add left 1 with
+        | error e => rw [hy] at h; simp only [] at h; cases h; exact arithAdd_nf _ _ _ hy
+        | ok y =>
+          rw [hy] at h
+          simp only [] at h
+          cases hz : m.add diag (edCost a b) with
+          | error e => rw [hz] at h; simp only [] at h; cases h; exact arithAdd_nf _ _ _ hz
+          | ok z =>
+            rw [hz] at h
+            simp only [] at h
+            cases hr : nextRowAux m b (min (min x y) z) p s ps with
+            | error e => rw [hr] at h; simp only [] at h; cases h; exact ih _ _ _ hr
+            | ok rest => rw [hr] at h; cases h
+
+theorem edRows_nf {α} [DecidableEq α] (m : Arith) (source : List α) :
+    ∀ (t : List α) (j : Nat) (prev : List Nat), edRows m source j t prev ≠ .error .outOfFuel := by
+  intro t
+  induction t with
+  | nil =>
+    intro j prev h
+    simp only [edRows] at h
+    split at h <;> cases h
+  | cons b t ih =>
+    intro j prev h
+    simp only [edRows] at h
+    cases hr : nextRowAux m b (m.cast j) (prev.headD 0) source prev.tail with
+    | error e => rw [hr] at h; simp only [] at h; cases h; exact nextRowAux_nf _ _ _ _ _ _ hr
+    | ok rest => rw [hr] at h; exact ih _ _ h
+
+theorem editDistance_nf {α} [DecidableEq α] (m : Arith) (s t : List α) : editDistance m s t ≠ .error .outOfFuel := by
+  unfold editDistance
+  intro h
+  split at h
+  · exact edRows_nf _ _ _ _ _ h
+  · cases h
+
+theorem titleLoop_nf (si : Nat) : ∀ (ws : List Title.TTok) (index : Nat) (out : List Nat),
+    Title.loop si index ws out ≠ .error .outOfFuel := by
+  intro ws
+  induction ws with
+  | nil => intro index out h; simp only [Title.loop] at h; cases h
+  | cons w rest ih =>
+    intro index out h
+    simp only [Title.loop] at h
+    cases hs : Title.step si w (Title.shouldCapToken w || index == 0 || rest.isEmpty) out with
+    | error e =>
+      rw [hs] at h; simp only [] at h; cases h
+      unfold Title.step at hs
+      split at hs <;> cases hs
+    | ok out' => rw [hs] at h; exact ih _ _ h
+
+theorem makeTitleCase_nf (toks : List Title.TTok) (src : List Nat) : Title.makeTitleCase toks src ≠ .error .outOfFuel := by
+  intro h
+  unfold Title.makeTitleCase at h
+  split at h
+  · cases h
+  · split at h
+    · cases h
+    · split at h
+      · rename_i e hc
+        cases h
+        exact getContent_nf _ _ hc
+      · exact titleLoop_nf _ _ _ _ h
+
+theorem tokAtom_nf (f : List Char → Tok → Bool) : NF (tokAtom f) := by
+  intro src ts h
+  cases ts <;> cases h
+
+theorem tokAtomE_nf (f : List Char → Tok → Except Panic Bool) (hf : ∀ src t, f src t ≠ .error .outOfFuel) : NF (tokAtomE f) := by
+  intro src ts h
+  cases ts with
+  | nil => cases h
+  | cons t ts =>
+    simp only [tokAtomE] at h
+    cases hh : f src t with
+    | error e => rw [hh] at h; cases h; exact hf _ _ hh
+    | ok b => rw [hh] at h; cases h
+
+theorem kindAtom_nf (p : Kind → Bool) : NF (kindAtom p) := by
+  intro src ts h
+  cases ts <;> cases h
+
+theorem whitespaceAtom_nf : NF whitespaceAtom := by
+  intro src ts h; cases h
+
+theorem anyAtom_nf : NF anyAtom := by
+  intro src ts h; cases h
+
+theorem nominalPhrase_nf (env : Env) : NF (nominalPhraseAtom env) := by
+  intro src ts h; cases h
+
+theorem exactWordTest_nf (w : List Char) (src : List Char) (t : Tok) : exactWordTest w src t ≠ .error .outOfFuel := by
+  intro h
+  unfold exactWordTest at h
+  split at h
+  · cases h
+  · split at h
+    · rename_i e hc; cases h; exact getContent_nf _ _ hc
+    · cases h
+
+theorem closureTest_nf (env : Env) (c : Closure) (src : List Char) (t : Tok) : c.test env src t ≠ .error .outOfFuel := by
+  intro h
+  cases c <;> simp only [Closure.test] at h
+  · split at h
+    · cases h
+    · split at h
+      · rename_i e hc; cases h; exact getContent_nf _ _ hc
+      · cases h
+  · split at h
+    · cases h
+    · split at h
+      · cases h
+      · split at h
+        · rename_i e hc; cases h; exact getContent_nf _ _ hc
+        · cases h
+  · cases h
+  · cases h
+  · split at h
+    · cases h
+    · split at h <;> cases h
+  · cases h
+  · cases h
+
+theorem wordSetAtom_nf (ws : List (List Char)) : NF (wordSetAtom ws) := by
+  intro src ts h
+  cases ts with
+  | nil => cases h
+  | cons t ts =>
+    simp only [wordSetAtom] at h
+    split at h
+    · cases h
+    · split at h
+      · rename_i e hc; cases h; exact getContent_nf _ _ hc
+      · cases h
+
+theorem anyCapAtom_nf (w : List Char) : NF (anyCapAtom w) := by
+  intro src ts h
+  cases ts with
+  | nil => cases h
+  | cons t ts =>
+    simp only [anyCapAtom] at h
+    split at h
+    · cases h
+    · split at h
+      · cases h
+      · split at h
+        · cases h
+        · split at h
+          · rename_i e hc; cases h; exact getContent_nf _ _ hc
+          · cases h
+
+theorem withinEdit_nf (env : Env) (w : List Char) (d : Nat) : NF (withinEditAtom env w d) := by
+  intro src ts h
+  cases ts with
+  | nil => cases h
+  | cons t ts =>
+    simp only [withinEditAtom] at h
+    split at h
+    · cases h
+    · split at h
+      · rename_i e hc; cases h; exact getContent_nf _ _ hc
+      · split at h
+        · rename_i e hc; cases h; exact editDistance_nf _ _ _ hc
+        · cases h
+
+theorem impliesQuantity_nf (env : Env) : NF (impliesQuantityAtom env) := by
+  intro src ts h
+  cases ts with
+  | nil => cases h
+  | cons t ts =>
+    simp only [impliesQuantityAtom] at h
+    split at h
+    · split at h
+      · cases h
+      · split at h
+        · cases h
+        · split at h
+          · rename_i e hc; cases h; exact getContent_nf _ _ hc
+          · cases h
+    · cases h
+    · cases h
+
+/-! combinators: each preserves `NF`; `repPat` is the one with a loop -/
+
+theorem seqGo_nf (ps : List Matcher) (hps : ∀ p ∈ ps, NF p) (src : List Char) :
+    ∀ (acc : Nat) (ts : List Tok), seqGo src ps acc ts ≠ .error .outOfFuel := by
+  induction ps with
+  | nil => intro acc ts h; cases h
+  | cons p ps ih =>
+    intro acc ts h
+    simp only [seqGo] at h
+    cases hp : p src ts with
+    | error e => rw [hp] at h; cases h; exact hps p (by simp) _ _ hp
+    | ok k =>
+      rw [hp] at h
+      simp only [] at h
+      split at h
+      · cases h
+      · split at h
+        · cases h
+        · exact ih (fun q hq => hps q (List.mem_cons_of_mem _ hq)) _ _ h
+
+theorem seqPat_nf (ps : List Matcher) (hps : ∀ p ∈ ps, NF p) : NF (seqPat ps) :=
+  fun src ts => seqGo_nf ps hps src 0 ts
+
+/-- **the `loop` of `RepeatingPattern::matches` cannot spin**: an iteration that does not return — because the child matched
+nothing, or panicked, or answered more than the slice holds (`&tokens[cursor..]` panics) — shortens the slice by at least one
+token, so `fuel > ts.length` iterations are never used up. The child's answer is NOT assumed to keep the contract. -/
+theorem repGo_nf (inner : Matcher) (hi : NF inner) (req : Nat) (src : List Char) :
+    ∀ (fuel cursor rep : Nat) (ts : List Tok), ts.length < fuel → repGo inner req src fuel cursor rep ts ≠ .error .outOfFuel := by
+  intro fuel
+  induction fuel with
+  | zero => intro _ _ ts hf; omega
+  | succ fuel ih =>
+    intro cursor rep ts hf h
+    simp only [repGo] at h
+    cases hp : inner src ts with
+    | error e => rw [hp] at h; cases h; exact hi _ _ hp
+    | ok k =>
+      rw [hp] at h
+      simp only [] at h
+      split at h
+      · cases h
+      · split at h
+        · cases h
+        · refine ih _ _ _ ?_ h
+          simp only [List.length_drop]
+          omega
+
+theorem repPat_nf (inner : Matcher) (hi : NF inner) (req : Nat) : NF (repPat inner req) :=
+  fun src ts => repGo_nf inner hi req src _ 0 0 ts (Nat.lt_succ_self _)
+
+theorem eitherGo_nf (ps : List Matcher) (hps : ∀ p ∈ ps, NF p) (src : List Char) (ts : List Tok) :
+    ∀ longest, eitherGo src ts ps longest ≠ .error .outOfFuel := by
+  induction ps with
+  | nil => intro longest h; cases h
+  | cons p ps ih =>
+    intro longest h
+    simp only [eitherGo] at h
+    cases hp : p src ts with
+    | error e => rw [hp] at h; cases h; exact hps p (by simp) _ _ hp
+    | ok k =>
+      rw [hp] at h
+      exact ih (fun q hq => hps q (List.mem_cons_of_mem _ hq)) _ h
+
+theorem eitherPat_nf (ps : List Matcher) (hps : ∀ p ∈ ps, NF p) : NF (eitherPat ps) :=
+  fun src ts => eitherGo_nf ps hps src ts 0
+
+theorem allGo_nf (ps : List Matcher) (hps : ∀ p ∈ ps, NF p) (src : List Char) (ts : List Tok) :
+    ∀ mx, allGo src ts ps mx ≠ .error .outOfFuel := by
+  induction ps with
+  | nil => intro mx h; cases h
+  | cons p ps ih =>
+    intro mx h
+    simp only [allGo] at h
+    cases hp : p src ts with
+    | error e => rw [hp] at h; cases h; exact hps p (by simp) _ _ hp
+    | ok k =>
+      rw [hp] at h
+      simp only [] at h
+      split at h
+      · cases h
+      · exact ih (fun q hq => hps q (List.mem_cons_of_mem _ hq)) _ h
+
+theorem allPat_nf (ps : List Matcher) (hps : ∀ p ∈ ps, NF p) : NF (allPat ps) :=
+  fun src ts => allGo_nf ps hps src ts 0
+
+theorem invertPat_nf (p : Matcher) (hp : NF p) : NF (invertPat p) := by
+  intro src ts h
+  simp only [invertPat] at h
+  split at h
+  · cases h
+  · cases hh : p src ts with
+    | error e => rw [hh] at h; cases h; exact hp _ _ hh
+    | ok k => rw [hh] at h; cases h
+
+theorem consumesPat_nf (p : Matcher) (hp : NF p) : NF (consumesPat p) := by
+  intro src ts h
+  simp only [consumesPat] at h
+  cases hh : p src ts with
+  | error e => rw [hh] at h; cases h; exact hp _ _ hh
+  | ok k => rw [hh] at h; cases h
+
+theorem firstGo_nf (ps : List Matcher) (hps : ∀ p ∈ ps, NF p) (src : List Char) (ts : List Tok) :
+    firstGo src ts ps ≠ .error .outOfFuel := by
+  induction ps with
+  | nil => intro h; cases h
+  | cons p ps ih =>
+    intro h
+    simp only [firstGo] at h
+    cases hp : p src ts with
+    | error e => rw [hp] at h; cases h; exact hps p (by simp) _ _ hp
+    | ok k =>
+      rw [hp] at h
+      simp only [] at h
+      split at h
+      · cases h
+      · exact ih (fun q hq => hps q (List.mem_cons_of_mem _ hq)) h
+
+theorem firstPat_nf (ps : List Matcher) (hps : ∀ p ∈ ps, NF p) : NF (firstPat ps) :=
+  fun src ts => firstGo_nf ps hps src ts
+
+theorem similarPat_nf (a b : Matcher) (ha : NF a) (hb : NF b) : NF (similarPat a b) := by
+  intro src ts h
+  simp only [similarPat] at h
+  cases hx : a src ts with
+  | error e => rw [hx] at h; cases h; exact ha _ _ hx
+  | ok x =>
+    rw [hx] at h
+    simp only [] at h
+    cases hy : b src ts with
+    | error e => rw [hy] at h; cases h; exact hb _ _ hy
+    | ok y => rw [hy] at h; cases h
+
+theorem notTitleCasePat_nf (env : Env) (inner : Matcher) (hi : NF inner) : NF (notTitleCasePat env inner) := by
+  intro src ts h
+  simp only [notTitleCasePat] at h
+  cases hp : inner src ts with
+  | error e => rw [hp] at h; cases h; exact hi _ _ hp
+  | ok k =>
+    rw [hp] at h
+    simp only [] at h
+    split at h
+    · cases h
+    · cases hs : sliceE ts 0 k with
+      | error e => rw [hs] at h; cases h; exact sliceE_nf _ _ _ hs
+      | ok m =>
+        rw [hs] at h
+        simp only [] at h
+        cases hsp : spanOf m with
+        | none => rw [hsp] at h; cases h
+        | some sp =>
+          rw [hsp] at h
+          simp only [] at h
+          cases hc : sp.getContent src with
+          | error e => rw [hc] at h; cases h; exact getContent_nf _ _ hc
+          | ok matched =>
+            rw [hc] at h
+            simp only [] at h
+            cases ht : Title.makeTitleCase (m.map (toTTok env src)) (src.map Char.toNat) with
+            | error e => rw [ht] at h; cases h; exact makeTitleCase_nf _ _ ht
+            | ok tc => rw [ht] at h; cases h
+
+theorem splitCompound_nf (env : Env) (bit : Nat) : NF (splitCompoundAtom env bit) := by
+  intro src ts h
+  have hinner : NF (seqPat [kindAtom Kind.isWord, whitespaceAtom, kindAtom Kind.isWord]) :=
+    seqPat_nf _ (by
+      intro p hp
+      simp only [List.mem_cons, List.mem_nil_iff, or_false] at hp
+      rcases hp with rfl | rfl | rfl
+      · exact kindAtom_nf _
+      · exact whitespaceAtom_nf
+      · exact kindAtom_nf _)
+  simp only [splitCompoundAtom] at h
+  cases hp : seqPat [kindAtom Kind.isWord, whitespaceAtom, kindAtom Kind.isWord] src ts with
+  | error e => rw [hp] at h; cases h; exact hinner _ _ hp
+  | ok k =>
+    rw [hp] at h
+    simp only [] at h
+    split at h
+    · cases h
+    · cases h0 : ts[0]? with
+      | none => rw [h0] at h; cases h
+      | some a =>
+        rw [h0] at h
+        cases h2 : ts[2]? with
+        | none => rw [h2] at h; cases h
+        | some b =>
+          rw [h2] at h
+          simp only [] at h
+          cases hca : a.span.getContent src with
+          | error e => rw [hca] at h; cases h; exact getContent_nf _ _ hca
+          | ok ca =>
+            rw [hca] at h
+            simp only [] at h
+            cases hcb : b.span.getContent src with
+            | error e => rw [hcb] at h; cases h; exact getContent_nf _ _ hcb
+            | ok cb =>
+              rw [hcb] at h
+              simp only [] at h
+              split at h
+              · split at h <;> cases h
+              · cases h
+
+theorem wordGroupPat_nf (rows : List (List Char × Matcher)) (hr : ∀ r ∈ rows, NF r.2) : NF (wordGroupPat rows) := by
+  intro src ts h
+  cases ts with
+  | nil => cases h
+  | cons t ts =>
+    simp only [wordGroupPat] at h
+    split at h
+    · cases h
+    · cases hc : t.span.getContent src with
+      | error e => rw [hc] at h; cases h; exact getContent_nf _ _ hc
+      | ok cs =>
+        rw [hc] at h
+        simp only [] at h
+        have hg : ∀ p ∈ (rows.filter fun r => r.1 == cs).map (·.2), NF p := by
+          intro p hp
+          obtain ⟨r, hrm, rfl⟩ := List.mem_map.mp hp
+          exact hr r (List.mem_filter.mp hrm).1
+        generalize (rows.filter fun r => r.1 == cs).map (·.2) = g at hg h
+        cases g with
+        | nil => cases h
+        | cons a g => exact firstGo_nf _ hg src _ h
+
+theorem kindGroupPat_nf (rows : List (Kind × Matcher)) (hr : ∀ r ∈ rows, NF r.2) : NF (kindGroupPat rows) := by
+  intro src ts h
+  cases ts with
+  | nil => cases h
+  | cons t ts =>
+    simp only [kindGroupPat] at h
+    cases hf : rows.find? (fun r => r.1 == t.kind) with
+    | none => rw [hf] at h; cases h
+    | some r => rw [hf] at h; exact hr r (List.mem_of_find?_eq_some hf) src _ h
+
+/-- every real leaf: none of them has a loop that could run out of fuel (`WhitespacePattern`, `NominalPhrase` are structural
+recursions over the slice; `WithinEditDistance` runs the two `for` loops of `edit_distance_min_alloc`, `SplitCompoundWord` a
+three-element `SequencePattern`) -/
+theorem leaf_nf (env : Env) : (l : Leaf) → NF (l.matcher env)
+  | .kind _ _ => tokAtom_nf _
+  | .strict _ => tokAtom_nf _
+  | .punctIs _ => tokAtom_nf _
+  | .numberIs _ _ _ => tokAtom_nf _
+  | .exactWord w => tokAtomE_nf _ (exactWordTest_nf w)
+  | .anyCap w => anyCapAtom_nf w
+  | .wordSet ws => wordSetAtom_nf ws
+  | .withinEdit w d => withinEdit_nf env w d
+  | .whitespace => whitespaceAtom_nf
+  | .any => anyAtom_nf
+  | .nominalPhrase => nominalPhrase_nf env
+  | .impliesQuantity => impliesQuantity_nf env
+  | .splitCompound bit => splitCompound_nf env bit
+  | .closure c => tokAtomE_nf _ (closureTest_nf env c)
+
+mutual
+/-- **no tree over the real leaves can hang**, on any source and any token list -/
+theorem matcher_nf (env : Env) : (p : RPat) → NF (p.matcher env)
+  | .leaf l => by rw [RPat.matcher]; exact leaf_nf env l
+  | .seq ps => by rw [RPat.matcher]; exact seqPat_nf _ (matchers_nf env ps)
+  | .rep p req => by rw [RPat.matcher]; exact repPat_nf _ (matcher_nf env p) req
+  | .either ps => by rw [RPat.matcher]; exact eitherPat_nf _ (matchers_nf env ps)
+  | .all ps => by rw [RPat.matcher]; exact allPat_nf _ (matchers_nf env ps)
+  | .invert p => by rw [RPat.matcher]; exact invertPat_nf _ (matcher_nf env p)
+  | .consumes p => by rw [RPat.matcher]; exact consumesPat_nf _ (matcher_nf env p)
+  | .first ps => by rw [RPat.matcher]; exact firstPat_nf _ (matchers_nf env ps)
+  | .similar a b => by rw [RPat.matcher]; exact similarPat_nf _ _ (matcher_nf env a) (matcher_nf env b)
+  | .notTitleCase p => by rw [RPat.matcher]; exact notTitleCasePat_nf env _ (matcher_nf env p)
+  | .wordGroup rows => by rw [RPat.matcher]; exact wordGroupPat_nf _ (wrows_nf env rows)
+  | .kindGroup rows => by rw [RPat.matcher]; exact kindGroupPat_nf _ (krows_nf env rows)
+theorem matchers_nf (env : Env) : (ps : RPats) → ∀ m ∈ RPats.matchers env ps, NF m
+  | .nil => by intro m hm; simp [RPats.matchers] at hm
+  | .cons p ps => by
+    intro m hm
+    simp only [RPats.matchers, List.mem_cons] at hm
+    rcases hm with rfl | hm
+    · exact matcher_nf env p
+    · exact matchers_nf env ps m hm
+theorem wrows_nf (env : Env) : (rows : WRows) → ∀ r ∈ WRows.rows env rows, NF r.2
+  | .nil => by intro r hr; simp [WRows.rows] at hr
+  | .cons w p rest => by
+    intro r hr
+    simp only [WRows.rows, List.mem_cons] at hr
+    rcases hr with rfl | hr
+    · exact matcher_nf env p
+    · exact wrows_nf env rest r hr
+theorem krows_nf (env : Env) : (rows : KRows) → ∀ r ∈ KRows.rows env rows, NF r.2
+  | .nil => by intro r hr; simp [KRows.rows] at hr
+  | .cons k p rest => by
+    intro r hr
+    simp only [KRows.rows, List.mem_cons] at hr
+    rcases hr with rfl | hr
+    · exact matcher_nf env p
+    · exact krows_nf env rest r hr
+end
+
+/-! ### the iteration bound of `RepeatingPattern` -/
+
+/-- **fuel beyond `ts.length + 1` is never touched**: two runs of the loop with any two fuels above the slice length agree —
+for ANY child (the loop itself refuses an answer longer than the slice) -/
+theorem repGo_fuel_irrelevant (inner : Matcher) (req : Nat) (src : List Char) :
+    ∀ (fuel fuel' cursor rep : Nat) (ts : List Tok), ts.length < fuel → ts.length < fuel' →
+      repGo inner req src fuel cursor rep ts = repGo inner req src fuel' cursor rep ts := by
+  intro fuel
+  induction fuel with
+  | zero => intro _ _ _ ts hf; omega
+  | succ fuel ih =>
+    intro fuel' cursor rep ts hf hf'
+    cases fuel' with
+    | zero => omega
+    | succ fuel' =>
+      simp only [repGo]
+      cases hp : inner src ts with
+      | error e => rfl
+      | ok k =>
+        simp only []
+        split
+        · rfl
+        · split
+          · rfl
+          · apply ih <;> simp only [List.length_drop] <;> omega
+
+/-- a result other than "out of fuel" is not changed by more fuel -/
+theorem repGo_fuel_mono (inner : Matcher) (req : Nat) (src : List Char) :
+    ∀ (fuel extra cursor rep : Nat) (ts : List Tok), repGo inner req src fuel cursor rep ts ≠ .error .outOfFuel →
+      repGo inner req src (fuel + extra) cursor rep ts = repGo inner req src fuel cursor rep ts := by
+  intro fuel
+  induction fuel with
+  | zero => intro _ _ _ ts h; exact absurd rfl h
+  | succ fuel ih =>
+    intro extra cursor rep ts h
+    rw [show fuel + 1 + extra = (fuel + extra) + 1 by omega]
+    simp only [repGo] at h ⊢
+    cases hp : inner src ts with
+    | error e => rfl
+    | ok k =>
+      rw [hp] at h
+      simp only [] at h ⊢
+      split
+      · rfl
+      · rename_i h0
+        rw [if_neg h0] at h
+        split
+        · rfl
+        · rename_i h1
+          rw [if_neg h1] at h
+          exact ih _ _ _ _ h
+
+/-- **what the loop can end with, under the contract of the child** (`MC`, which `matcher_mc` proves of every tree): with fuel
+above the slice length it returns a count inside the slice, or the very panic the child raised on some suffix of the slice —
+nothing of its own (no slice panic, no hang) -/
+theorem repGo_outcome (inner : Matcher) (hc : MC inner) (req : Nat) (src : List Char) :
+    ∀ (fuel cursor rep : Nat) (ts : List Tok), ts.length < fuel →
+      (∃ n, repGo inner req src fuel cursor rep ts = .ok n ∧ n ≤ cursor + ts.length) ∨
+      (∃ e k, repGo inner req src fuel cursor rep ts = .error e ∧ k ≤ ts.length ∧ inner src (ts.drop k) = .error e) := by
+  intro fuel
+  induction fuel with
+  | zero => intro _ _ ts hf; omega
+  | succ fuel ih =>
+    intro cursor rep ts hf
+    simp only [repGo]
+    cases hp : inner src ts with
+    | error e => exact .inr ⟨e, 0, rfl, Nat.zero_le _, by simpa using hp⟩
+    | ok k =>
+      simp only []
+      have hk := hc src ts k hp
+      split
+      · refine .inl ⟨_, rfl, ?_⟩
+        split <;> omega
+      · rw [if_neg (by omega)]
+        rcases ih (cursor + k) (rep + 1) (ts.drop k) (by simp only [List.length_drop]; omega) with ⟨n, h1, h2⟩ | ⟨e, j, h1, h2, h3⟩
+        · refine .inl ⟨n, h1, ?_⟩
+          simp only [List.length_drop] at h2
+          omega
+        · refine .inr ⟨e, k + j, h1, ?_, ?_⟩
+          · simp only [List.length_drop] at h2
+            omega
+          · rw [List.drop_drop] at h3
+            exact h3
+
+theorem repGo_ge (inner : Matcher) (req : Nat) (src : List Char) :
+    ∀ (fuel cursor rep : Nat) (ts : List Tok) (n : Nat), repGo inner req src fuel cursor rep ts = .ok n → n ≠ 0 → cursor ≤ n := by
+  intro fuel
+  induction fuel with
+  | zero => intro _ _ _ _ h; cases h
+  | succ fuel ih =>
+    intro cursor rep ts n h hn
+    simp only [repGo] at h
+    cases hp : inner src ts with
+    | error e => rw [hp] at h; cases h
+    | ok k =>
+      rw [hp] at h
+      simp only [] at h
+      split at h
+      · simp only [Except.ok.injEq] at h
+        subst h
+        split at hn <;> simp_all
+      · split at h
+        · cases h
+        · have := ih _ _ _ _ h hn
+          omega
+
+/-- **an output-sensitive bound**: a non-zero answer `n` is reached within `n - cursor + 1` iterations (every iteration but the
+last consumes a token of the `n - cursor` it adds) — for ANY child -/
+theorem repGo_fuel_by_result (inner : Matcher) (req : Nat) (src : List Char) :
+    ∀ (fuel cursor rep : Nat) (ts : List Tok) (n : Nat), repGo inner req src fuel cursor rep ts = .ok n → n ≠ 0 →
+      repGo inner req src (n - cursor + 1) cursor rep ts = .ok n := by
+  intro fuel
+  induction fuel with
+  | zero => intro _ _ _ _ h; cases h
+  | succ fuel ih =>
+    intro cursor rep ts n h hn
+    have hge := repGo_ge inner req src _ _ _ _ n h hn
+    simp only [repGo] at h ⊢
+    cases hp : inner src ts with
+    | error e => rw [hp] at h; cases h
+    | ok k =>
+      rw [hp] at h
+      simp only [] at h ⊢
+      split
+      · rename_i h0; rw [if_pos h0] at h; exact h
+      · rename_i h0
+        rw [if_neg h0] at h
+        split
+        · rename_i h1; rw [if_pos h1] at h; exact h
+        · rename_i h1
+          rw [if_neg h1] at h
+          have h2 := ih _ _ _ _ h hn
+          have hge' := repGo_ge inner req src _ _ _ _ n h hn
+          have := repGo_fuel_mono inner req src (n - (cursor + k) + 1) (k - 1) (cursor + k) (rep + 1) (ts.drop k) (by rw [h2]; intro hh; cases hh)
+          rw [h2] at this
+          rw [show n - cursor = n - (cursor + k) + 1 + (k - 1) by omega]
+          exact this
+
+/-! ### `run_on_chunk`, `find_all_matches`, `condense_pattern` -/
+
+/-- `run_on_chunk` has no fuel of its own (the cursor is the recursion): it reports a hang only if the pattern or
+`match_to_lint` does -/
+theorem runOnChunkGo_nf (m : Matcher) (hm : NF m) (f : List Char → List Tok → Except Panic (List RuleLint)) (src : List Char)
+    (hf : ∀ l, f src l ≠ .error .outOfFuel) :
+    ∀ (ts : List Tok) (skip : Nat), runOnChunkGo m f src skip ts ≠ .error .outOfFuel := by
+  intro ts
+  induction ts with
+  | nil => intro skip h; cases skip <;> cases h
+  | cons t ts ih =>
+    intro skip h
+    cases skip with
+    | succ s => simp only [runOnChunkGo] at h; exact ih s h
+    | zero =>
+      simp only [runOnChunkGo] at h
+      cases hp : m src (t :: ts) with
+      | error e => rw [hp] at h; cases h; exact hm _ _ hp
+      | ok n =>
+        rw [hp] at h
+        simp only [] at h
+        split at h
+        · exact ih 0 h
+        · split at h
+          · cases h
+          · cases hl : f src ((t :: ts).take n) with
+            | error e => rw [hl] at h; cases h; exact hf _ hl
+            | ok l =>
+              rw [hl] at h
+              simp only [] at h
+              cases hr : runOnChunkGo m f src (n - 1) ts with
+              | error e => rw [hr] at h; cases h; exact ih _ hr
+              | ok r => rw [hr] at h; cases h
+
+theorem collectE_nf {α} (f : α → Except Panic (List RuleLint)) : ∀ (xs : List α), (∀ x ∈ xs, f x ≠ .error .outOfFuel) →
+    collectE f xs ≠ .error .outOfFuel := by
+  intro xs
+  induction xs with
+  | nil => intro _ h; cases h
+  | cons x xs ih =>
+    intro hx h
+    simp only [collectE] at h
+    cases h1 : f x with
+    | error e => rw [h1] at h; cases h; exact hx x (by simp) h1
+    | ok a =>
+      rw [h1] at h
+      simp only [] at h
+      cases h2 : collectE f xs with
+      | error e => rw [h2] at h; cases h; exact ih (fun y hy => hx y (List.mem_cons_of_mem _ hy)) h2
+      | ok b => rw [h2] at h; cases h
+
+theorem mapPhraseMatch_nf (env : Env) (forms : List (List Char)) (src : List Char) (m : List Tok) :
+    mapPhraseMatch env forms src m ≠ .error .outOfFuel := by
+  intro h
+  simp only [mapPhraseMatch] at h
+  split at h
+  · cases h
+  · split at h
+    · rename_i e hc; cases h; exact getContent_nf _ _ hc
+    · cases h
+
+theorem lookupRow_nf (env : Env) (src : List Char) (m : List Tok) : ∀ rows : List PNRow,
+    lookupRow env src m rows ≠ .error .outOfFuel := by
+  intro rows
+  induction rows with
+  | nil => intro h; cases h
+  | cons r rest ih =>
+    intro h
+    simp only [lookupRow] at h
+    cases hp : r.pat.matcher env src m with
+    | error e => rw [hp] at h; cases h; exact matcher_nf env _ _ _ hp
+    | ok n =>
+      rw [hp] at h
+      simp only [] at h
+      split at h
+      · cases h
+      · exact ih h
+
+theorem zipBroken_nf (src : List Char) : ∀ (m : List Tok) (cs : List (List Char)), zipBroken src m cs ≠ .error .outOfFuel := by
+  intro m
+  induction m with
+  | nil => intro cs h; simp only [zipBroken] at h; cases h
+  | cons t ts ih =>
+    intro cs h
+    cases cs with
+    | nil => simp only [zipBroken] at h; cases h
+    | cons c cs =>
+      simp only [zipBroken] at h
+      cases hc : t.span.getContent src with
+      | error e => rw [hc] at h; cases h; exact getContent_nf _ _ hc
+      | ok txt =>
+        rw [hc] at h
+        simp only [] at h
+        split at h
+        · cases h
+        · exact ih _ h
+
+theorem properNounMatch_nf (env : Env) (rows : List PNRow) (src : List Char) (m : List Tok) :
+    properNounMatch env rows src m ≠ .error .outOfFuel := by
+  intro h
+  simp only [properNounMatch] at h
+  cases hl : lookupRow env src m rows with
+  | error e => rw [hl] at h; cases h; exact lookupRow_nf _ _ _ _ hl
+  | ok o =>
+    rw [hl] at h
+    cases o with
+    | none => cases h
+    | some r =>
+      simp only [] at h
+      cases hz : zipBroken src m r.contents with
+      | error e => rw [hz] at h; cases h; exact zipBroken_nf _ _ _ hz
+      | ok b =>
+        rw [hz] at h
+        cases b with
+        | false => cases h
+        | true =>
+          simp only [] at h
+          split at h <;> cases h
+
+theorem foundFrom_nf (m : Matcher) (hm : NF m) (src : List Char) : ∀ (ts : List Tok) (i : Nat),
+    foundFrom m src i ts ≠ .error .outOfFuel := by
+  intro ts
+  induction ts with
+  | nil => intro i h; cases h
+  | cons t ts ih =>
+    intro i h
+    simp only [foundFrom] at h
+    cases hp : m src (t :: ts) with
+    | error e => rw [hp] at h; cases h; exact hm _ _ hp
+    | ok n =>
+      rw [hp] at h
+      simp only [] at h
+      cases hr : foundFrom m src (i + 1) ts with
+      | error e => rw [hr] at h; cases h; exact ih _ hr
+      | ok rest => rw [hr] at h; cases h
+
+theorem findAllMatches_nf (m : Matcher) (hm : NF m) (src : List Char) (ts : List Tok) :
+    findAllMatches m src ts ≠ .error .outOfFuel := by
+  intro h
+  simp only [findAllMatches] at h
+  cases hr : foundFrom m src 0 ts with
+  | error e => rw [hr] at h; cases h; exact foundFrom_nf m hm src _ _ hr
+  | ok found =>
+    rw [hr] at h
+    simp only [] at h
+    split at h <;> cases h
+
+theorem condLoop_nf (edit : Kind → Kind) : ∀ (ms : List Span) (ts : List Tok) (rem : List Nat),
+    condLoop edit ms ts rem ≠ .error .outOfFuel := by
+  intro ms
+  induction ms with
+  | nil => intro ts rem h; cases h
+  | cons m ms ih =>
+    intro ts rem h
+    simp only [condLoop] at h
+    cases hs : sliceE ts m.start m.stop with
+    | error e => rw [hs] at h; cases h; exact sliceE_nf _ _ _ hs
+    | ok slice =>
+      rw [hs] at h
+      simp only [] at h
+      split at h
+      · exact ih _ _ h
+      · split at h
+        · cases h
+        · split at h
+          · cases h
+          · exact ih _ _ h
+
+theorem condensePattern_nf (m : Matcher) (hm : NF m) (edit : Kind → Kind) (src : List Char) (ts : List Tok) :
+    condensePattern m edit src ts ≠ .error .outOfFuel := by
+  intro h
+  simp only [condensePattern] at h
+  cases hf : findAllMatches m src ts with
+  | error e => rw [hf] at h; cases h; exact findAllMatches_nf m hm src _ hf
+  | ok ms =>
+    rw [hf] at h
+    simp only [] at h
+    cases hc : condLoop edit ms ts [] with
+    | error e => rw [hc] at h; cases h; exact condLoop_nf _ _ _ _ hc
+    | ok r => rw [hc] at h; cases h
+
+/-! ### the patterns of `condense_contractions`, `condense_ellipsis`, `condense_latin` -/
+
+theorem contractionPat_nf : NF contractionPat :=
+  seqPat_nf _ (by
+    intro p hp
+    simp only [List.mem_cons, List.mem_nil_iff, or_false] at hp
+    rcases hp with rfl | rfl | rfl <;> exact kindAtom_nf _)
+
+theorem ellipsisPat_nf : NF ellipsisPat :=
+  repPat_nf _ (seqPat_nf _ (by
+    intro p hp
+    simp only [List.mem_cons, List.mem_nil_iff, or_false] at hp
+    subst hp
+    exact kindAtom_nf _)) 2
+
+theorem latinPat_nf : NF latinPat :=
+  eitherPat_nf _ (by
+    intro p hp
+    simp only [List.mem_cons, List.mem_nil_iff, or_false] at hp
+    rcases hp with rfl | rfl
+    · apply seqPat_nf
+      intro q hq
+      simp only [List.mem_cons, List.mem_nil_iff, or_false] at hq
+      rcases hq with rfl | rfl
+      · exact wordSetAtom_nf _
+      · exact kindAtom_nf _
+    · apply seqPat_nf
+      intro q hq
+      simp only [List.mem_cons, List.mem_nil_iff, or_false] at hq
+      rcases hq with rfl | rfl | rfl | rfl
+      · exact anyCapAtom_nf _
+      · exact whitespaceAtom_nf
+      · exact anyCapAtom_nf _
+      · exact kindAtom_nf _)
+
+end noFuel
+end Harper.Leaves
